@@ -17,6 +17,8 @@ POOL = [
     ("multipart", ["mls_mergeable", "mls_unmergeable", "valid_single"]),
     ("mixed", ["overlap", "underlap_diag", "sharp", "null_empty", "cuts_itself"]),
     ("multijunction", ["multijunction", "underlap"]),
+    # multi-part lines that take part in node defects only once merged by the first pass (object caches must not go stale)
+    ("multipart_nodes", ["mls_vnode", "mls_multijunction", "mls_vnode_start"]),
 ]
 
 
@@ -77,7 +79,7 @@ def run_history(hist):
 
 def s13_histories(ctx):
     import_fractopo()
-    res = StreamResult("S13-histories", rule="pool of 8 frames containing every defect kind; ALL ordered pairs of fresh validations (64, exhaustive) + random "
+    res = StreamResult("S13-histories", rule="pool of 9 frames containing every defect kind (incl. multi-part lines that form V-nodes / junctions once merged); ALL ordered pairs of fresh validations (81, exhaustive) + random "
                        "histories of new / re-run-same-object / re-validate-earlier-output operations, all in one process; each step compared with the result "
                        "of validating that frame once in a fresh interpreter; non-trivial = history in which two different frames are validated")
     rng = random.Random(f"{ctx.seed}:S13")
